@@ -23,7 +23,10 @@ def emit(*rec):
 def _die(how):
     """Scripted death of this process (only ever scripted for layer subprocesses)."""
     import signal
-    sys.stdout.flush()
+    try:
+        sys.stdout.flush()
+    except Exception:
+        pass
     if how == 'exit0':
         os._exit(0)
     if how == 'exit3':
@@ -196,6 +199,9 @@ def build(modname):
 
         def __str__(self, table=table):
             tidx, T = table[self._testMethodName]
+            if T.get('str_die') and _resume_layer() and sys.stdout.closed:
+                # called while the child writes its report (SubProcess.report closes stdout first)
+                _die(T['str_die'])
             if 'str' in T:
                 return T['str']
             return unittest.TestCase.__str__(self)
